@@ -109,8 +109,10 @@ func (pl ProofList) Verify(publicKeys []*gabikeys.PublicKey, context, nonce *big
 			// First time we see this keyshare server
 			secretkeyResponses[kss] = proof.SecretKeyResponse()
 		} else {
-			// We've already seen this keyshare server, secret key response should match earlier one
-			if response.Cmp(proof.SecretKeyResponse()) != 0 {
+			// We've already seen this keyshare server, secret key response should match earlier one.
+			// A proof without a secret key response (one that discloses attribute 0) cannot be
+			// shown to share its secret key with another proof.
+			if response == nil || proof.SecretKeyResponse() == nil || response.Cmp(proof.SecretKeyResponse()) != 0 {
 				return false
 			}
 		}
